@@ -554,9 +554,15 @@ struct BoundedSink {
     data: Vec<u8>,
     cap: usize,
     chunk: usize,
+    intr: bool, // every other call is interrupted (write_all must retry; the outcome may not depend on it)
+    calls: usize,
 }
 impl std::io::Write for BoundedSink {
     fn write(&mut self, buf: &[u8]) -> std::io::Result<usize> {
+        self.calls += 1;
+        if self.intr && self.calls % 2 == 1 {
+            return Err(std::io::Error::from(std::io::ErrorKind::Interrupted));
+        }
         let n = buf.len().min(self.chunk).min(self.cap - self.data.len());
         self.data.extend_from_slice(&buf[..n]);
         Ok(n)
@@ -832,7 +838,7 @@ fn unary<A: Extra + Extend<Bit>>(c: &Case) -> Res {
         }
         38 => {
             // write into a sink with room for arg 1 bytes in all, taking at most arg 2 bytes per write() call, which
-            // answers Ok(0) once full.  form 0: the harness's own sink; 1: std's `&mut [u8]`; 2: std's Cursor<&mut [u8]>
+            // answers Ok(0) once full.  form 0: the harness's own sink (3: the same, every other call interrupted); 1: std's `&mut [u8]`; 2: std's Cursor<&mut [u8]>
             let cap = c.a(1) as usize;
             let (r, got): (std::io::Result<()>, Vec<u8>) = match c.form {
                 1 => {
@@ -856,7 +862,7 @@ fn unary<A: Extra + Extend<Bit>>(c: &Case) -> Res {
                     (r, store)
                 }
                 _ => {
-                    let mut w = BoundedSink { data: vec![], cap, chunk: (c.a(2).min(1 << 40)) as usize };
+                    let mut w = BoundedSink { data: vec![], cap, chunk: (c.a(2).min(1 << 40)) as usize, intr: c.form == 3, calls: 0 };
                     let r = a.write(&mut w, endian(c.a(0)));
                     (r, w.data)
                 }
